@@ -620,7 +620,7 @@ impl<'t, 'c> Gen<'t, 'c> {
         let ncases = 1 + self.t.choose(3);
         let mut cases = vec![];
         for _ in 0..ncases {
-            let nitems = 1 + self.t.choose(2);
+            let nitems = *self.t.pick(&[1usize, 2, 1, 3, 4]);
             let mut items = vec![];
             for _ in 0..nitems {
                 let mk = |g: &mut Self| if sty == Ty::Str { g.str_expr(0) } else { g.num_expr(sty, 0) };
@@ -668,6 +668,13 @@ impl<'t, 'c> Gen<'t, 'c> {
                     (lit_i(from_v), lit_i(from_v + len), Some(Expr::Lit(Lit::Frac { num: 1, shift: 1, double: cty == Ty::Double })))
                 }
             }
+        };
+        // a fractional limit for a whole-number counter is converted to the counter's type first (x.75 rounds up: one more pass)
+        let to = if self.cfg.floats && cty.is_whole() && step_kind <= 1 && from_v + len >= 0 && self.t.chance(1, 6) {
+            let q = *self.t.pick(&[3i64, 1]);
+            Expr::Lit(Lit::Frac { num: (from_v + len) * 4 + q, shift: 2, double: false })
+        } else {
+            to
         };
         // occasionally bounds are variables / expressions
         let to = if self.t.chance(1, 5) { Expr::Bin(BinOp::Add, Box::new(self.paren_if_binary(to)), Box::new(lit_i(0))) } else { to };
